@@ -425,6 +425,20 @@ static double gen_double(struct mon_rng *r) {
             break;
         }
         case 3: {
+            if (mon_chance(r, 1, 3)) {
+                /* a significand of at most 24 bits at exponents around both ends of the float range: inside the normal range
+                 * that is a float, below 2^-126 only if enough trailing bits are zero as well, above 2^128 never */
+                uint32_t m = (uint32_t)mon_rand(r) & 0x7FFFFFu;
+                if (mon_chance(r, 1, 2)) {
+                    m &= 0x7FFFFFu << mon_below(r, 23); /* few significant bits */
+                }
+                static const int EE[] = {-152, -151, -150, -149, -148, -147, -145, -140, -135, -130, -128, -127, -126, -125, 126, 127, 128};
+                v = ldexp(1.0 + (double)m / 8388608.0, EE[mon_below(r, sizeof(EE) / sizeof(EE[0]))]);
+                if (mon_chance(r, 1, 2)) {
+                    v = -v;
+                }
+                break;
+            }
             double c[8];
             c[0] = (double)FLT_MAX;
             c[1] = (double)FLT_MAX;
